@@ -17,7 +17,7 @@ CHECK = dict(
                'std::istream::read is wrapped (loader scenario only) so that 10000 consecutive reads at end of input end the load with an exception instead of hanging the worker. '
                'The ReadChunk loop of the reader scenario is bounded by the harness itself (bytes+8 calls, or a proven fixed point).',
     rule='texts a^p.X.a^q: X = every sequence of length <=2 (thorough <=3) over {b1=U+007A, b2=U+00E9, b3=U+20AC, b4=U+1F600, b4max=U+10FFFF, feff=U+FEFF, nul=U+0000}; p such that X starts at every byte offset '
-         'k*ChunkSize-8..k*ChunkSize+8 (k=1,2; quick: k=1 only for ChunkSize 256) of the encoded stream; q in {0, 1, ChunkSize bytes of filler (quick: not for 256)}; plus every text of 0..3 symbols over the alphabet, "a" and the ASCII boundary characters U+000A, U+001F, U+007F (a BOM-less text may begin with any ASCII character other than NUL); '
+         'k*ChunkSize-8..k*ChunkSize+8 (k=1,2; quick: k=1 only for ChunkSize 256) of the encoded stream; q in {0, 1, ChunkSize bytes of filler (quick: not for 256)}; plus every text of 0..3 symbols over the alphabet, "a" and the ASCII boundary characters U+000A, U+001F, U+007F (a BOM-less text may begin with any ASCII character other than NUL); writer additionally: every source unit string of length <= 3 over a per-width alphabet with ill-formed units (lone surrogates, surrogate / out-of-range code points, lone lead and tail octets), judged by strict decoding of the written stream and the segmentation-agnostic matcher of C12; '
          'x {UTF-8, UTF-16LE/BE, UTF-32LE/BE} x BOM {on, off} x target char {char, char16_t, char32_t} x ChunkSize {32, 64, 256} x every truncation point 0..len x {Skip, ThrowError} '
          'x delivery {all at once, first underflow 1 byte (thorough also chunk-1, chunk+1 bytes)}. '
          'DetectEncoding: same texts around offset 128 (its look-ahead), string overload and stream overload x skipBomWhenFound x start position {0, 3}. Writer: every short text and a^{1,40}.X.a^{0,1} x 5 encodings x BOM x source '
